@@ -13,7 +13,7 @@ Local Open Scope N_scope.
 Ltac Zify.zify_post_hook ::= Z.div_mod_to_equations.
 
 (** ---- sizes and bytes ---- *)
-Lemma enc_titems_len l : (tcfuel l <= length (enc_titems l))%nat /\ (tszs l <= length (enc_titems l))%nat /\ (tcnts l <= length (enc_titems l))%nat /\
+Lemma enc_titems_len l : (tcfuel l <= 2 * length (enc_titems l))%nat /\ (tszs l <= length (enc_titems l))%nat /\ (tcnts l <= length (enc_titems l))%nat /\
   (length l <= length (enc_titems l))%nat.
 Proof.
   induction l as [|x t IHt]; [cbn; lia|]. destruct IHt as (A' & B' & C' & D').
@@ -88,7 +88,7 @@ Lemma pass2_f3 ts fuel t1 g1 pl1 hdr :
   (tcfuel ts + 24 <= fuel)%nat ->
   wp False (connectNamedObjArgs fuel 0) (after_first t1 [] 1 data) (fun r s' => r = ROk /\ exists t2 g2 pl2,
     s' = with_tree (after_first t1 [] 1 data) t2 /\ Rep t2 g2 pl2 /\
-    MInv g2 pl2 [] (fun _ => []) 6 aml_sizeofSDTHeader ts).
+    MInv 1 0 g2 pl2 [] (fun _ => []) 6 aml_sizeofSDTHeader ts).
 Proof.
   intros data Hok Hhdr H1 P1 Hfuel. destruct P1 as [A1 A2 A3 A4 A5 A6]. change (N.of_nat (length pl0c)) with 6 in *.
   set (s1 := after_first t1 [] 1 data).
@@ -126,20 +126,48 @@ Proof.
 Qed.
 
 (** ---- mergeScopeDirectives on the whole tree ---- *)
-Lemma dpay_merge_ok d : merge_ok 1 (dpay d).
+Lemma dpay_merge_ok H0 d : merge_ok H0 (dpay d).
 Proof. do 3 eexists. split; [reflexivity|right; reflexivity]. Qed.
 
-Lemma merge_root ts hdr f s g pl :
-  let data := hdr ++ enc_titems ts in
-  Rep (p_tree s) g pl -> MInv g pl [] (fun _ => []) 6 aml_sizeofSDTHeader ts ->
-  p_handle s = 1 -> p_tables s = [data] -> lenN hdr = aml_sizeofSDTHeader -> forallb titem_okb ts = true ->
-  (3 * tszs ts + length ts + 40 <= f)%nat ->
-  wp False (mergeScopeDirectives f 0) s (fun r s' => r = ROk /\ exists g' pl',
-     Rep (p_tree s') g' pl' /\ p_handle s' = 1 /\ p_tables s' = [data] /\ p_relocatedObjects s' = p_relocatedObjects s /\
-     MInv g' pl' (keep 6 aml_sizeofSDTHeader ts) (moved 6 aml_sizeofSDTHeader ts) (6 + N.of_nat (tszs ts)) (aml_sizeofSDTHeader + lenN (enc_titems ts)) []).
+(** the trees of earlier tables hold no Scope directive of this table *)
+Lemma merge_forest g pl h (KT : list rose) : Forall (Desc g pl) KT -> Forall (rallr f1_okE) KT -> (forall y, In y (rnodesl KT) -> y <> 0) ->
+  forall K1 K2 l1 l2 f s res (Q : pres -> pstate -> Prop), KT = K1 ++ K2 ->
+  Rep (p_tree s) g pl -> p_handle s = h -> kids g 0 = l1 ++ map ridx K2 ++ l2 -> (3 * rsizes KT + length K2 <= f)%nat ->
+  wp False (mergeScope_loop (f - length K2) (hd InvalidIndex l2) res) s Q ->
+  wp False (mergeScope_loop f (hd InvalidIndex (map ridx K2 ++ l2)) res) s Q.
 Proof.
-  intros data H I Hh Htb Hhdr Hok Hf.
-  pose proof I as [I1 I2 I3 I4 I5 I6 I7 I8 I9 I10 I11 I12 I13]. cbn [map app] in I1.
+  intros HD HO Hnz K1 K2. revert K1. induction K2 as [|c r IH]; intros K1 l1 l2 f s res Q EK H Hh Hk Hf K.
+  - cbn [map app length] in *. rewrite Nat.sub_0_r in K. exact K.
+  - cbn [map app length hd] in *. destruct f as [|f1]; [lia|].
+    assert (Hc : In c KT) by (rewrite EK; apply in_or_app; right; left; reflexivity).
+    assert (Dc : Desc g pl c) by (rewrite Forall_forall in HD; apply HD; exact Hc).
+    assert (Hsz : (rsize c <= rsizes KT)%nat).
+    { rewrite EK, rsizes_app. cbn [rsizes fold_right]. lia. }
+    eapply (merge_step g pl h (fun y => In y (rnodesl KT)) f1 0 l1 (ridx c) (map ridx r ++ l2) res s).
+    + refine (proj1 (mergeS_all g pl h (fun y => In y (rnodesl KT)) _ _ _ f1)).
+      * intros y c' Hy Hc'. apply (forest_kids_in g pl KT HD y c' Hy Hc').
+      * exact Hnz.
+      * intros y a Hy Ha _. destruct (forest_lookup g pl KT HD HO y Hy) as (a2 & ks2 & D2 & O2).
+        destruct (Desc_inv _ _ _ _ _ D2) as (P2 & _ & _). assert (a2 = a) by congruence. subst a2. exact (merge_ok_f1 h _ _ _ O2).
+    + exact H.
+    + exact Hh.
+    + exact Hk.
+    + unfold rnodesl. apply in_flat_map. exists c. split; [exact Hc|]. destruct c. rewrite rnodes_eq. left. reflexivity.
+    + apply (fwalk_size g pl c Dc). lia.
+    + apply (IH (K1 ++ [c]) (l1 ++ [ridx c]) l2 f1 s res Q); [rewrite EK, <- app_assoc; reflexivity|exact H|exact Hh|rewrite Hk, <- app_assoc; reflexivity|lia|].
+      replace (f1 - length r)%nat with (S f1 - S (length r))%nat by lia. exact K.
+Qed.
+
+Lemma merge_rootG h tbl tbls data (Hnth : nth_error tbls (N.to_nat tbl) = Some data) ts KT0 b dpre dpost f s g pl :
+  Rep (p_tree s) g pl -> MInv h tbl g pl KT0 (fun _ => []) b (lenN dpre) ts ->
+  p_handle s = h -> p_tables s = tbls -> data = dpre ++ enc_titems ts ++ dpost -> forallb titem_okb ts = true ->
+  (3 * rsizes KT0 + length KT0 + 3 * tszs ts + length ts + 40 <= f)%nat ->
+  wp False (mergeScopeDirectives f 0) s (fun r s' => r = ROk /\ exists g' pl',
+     Rep (p_tree s') g' pl' /\ p_handle s' = h /\ p_tables s' = tbls /\ p_relocatedObjects s' = p_relocatedObjects s /\
+     MInv h tbl g' pl' (KT0 ++ keep h tbl b (lenN dpre) ts) (moved h tbl b (lenN dpre) ts) (b + N.of_nat (tszs ts)) (lenN dpre + lenN (enc_titems ts)) []).
+Proof.
+  intros H I Hh Htb Hdata Hok Hf.
+  pose proof I as [I1 I2 I3 I4 I5 I6 I7 I8 I9 I10 I11 I12 I13].
   assert (Hp0 : pget pl 0 = Some (dpay 0)) by (apply I2; lia).
   destruct f as [|f0]; [lia|]. rewrite mergeScopeDirectives_S.
   apply wp_bind. eapply wp_objectAt_rep; [exact H|exact Hp0|discriminate|].
@@ -153,39 +181,57 @@ Proof.
   apply wp_bind, wp_get. rewrite (pay_op _ _ Hpay). change (y_op (dpay 0) =? aml_pOpScope) with false. cbn [andb].
   apply wp_bind, wp_ret. cbv iota.
   (* the five predefined scopes *)
-  assert (HMW : forall n, MWs g pl 1 (fun y => 1 <= y <= 5) n).
-  { intros n. refine (proj1 (mergeS_all g pl 1 (fun y => 1 <= y <= 5) _ _ _ n)).
+  assert (HMW : forall n, MWs g pl h (fun y => 1 <= y <= 5) n).
+  { intros n. refine (proj1 (mergeS_all g pl h (fun y => 1 <= y <= 5) _ _ _ n)).
     - intros y c Hy Hc. rewrite (I3 y Hy) in Hc. destruct Hc.
     - intros y Hy. lia.
     - intros y a Hy Ha _. rewrite (I2 y) in Ha by lia. inversion Ha. apply dpay_merge_ok. }
   assert (Hfw : forall d n, 1 <= d <= 5 -> (3 <= n)%nat -> fwalk g n d).
   { intros d n Hd Hn. apply (fwalk_size g pl (RN d (dpay d) [])); [apply leaf_desc; [apply I2; lia|apply (I3 d Hd)]|cbn; lia]. }
-  destruct f0 as [|f1]; [lia|]. eapply (merge_step g pl 1 (fun y => 1 <= y <= 5) f1 0 [] 1 _ ROk s0); [apply HMW|exact H0|exact Hh|rewrite I1; reflexivity|cbv beta; lia|apply Hfw; lia|]. cbn [hd].
-  destruct f1 as [|f2]; [lia|]. eapply (merge_step g pl 1 (fun y => 1 <= y <= 5) f2 0 [1] 2 _ ROk s0); [apply HMW|exact H0|exact Hh|rewrite I1; reflexivity|cbv beta; lia|apply Hfw; lia|]. cbn [hd].
-  destruct f2 as [|f3]; [lia|]. eapply (merge_step g pl 1 (fun y => 1 <= y <= 5) f3 0 [1; 2] 3 _ ROk s0); [apply HMW|exact H0|exact Hh|rewrite I1; reflexivity|cbv beta; lia|apply Hfw; lia|]. cbn [hd].
-  destruct f3 as [|f4]; [lia|]. eapply (merge_step g pl 1 (fun y => 1 <= y <= 5) f4 0 [1; 2; 3] 4 _ ROk s0); [apply HMW|exact H0|exact Hh|rewrite I1; reflexivity|cbv beta; lia|apply Hfw; lia|]. cbn [hd].
-  destruct f4 as [|f5]; [lia|]. eapply (merge_step g pl 1 (fun y => 1 <= y <= 5) f5 0 [1; 2; 3; 4] 5 _ ROk s0); [apply HMW|exact H0|exact Hh|rewrite I1; reflexivity|cbv beta; lia|apply Hfw; lia|]. cbn [hd].
-  eapply (mspec_all [data] data eq_refl ts [] (fun _ => []) 6 aml_sizeofSDTHeader s0 g pl f5 4%nat hdr []);
-    [exact H0|exact I|exact Hh|exact Htb|unfold data; rewrite app_nil_r; reflexivity|symmetry; exact Hhdr|exact Hok|lia|lia|].
+  set (rest0 := map ridx KT0 ++ map ridx (tlay2 h tbl b (lenN dpre) ts)) in *.
+  destruct f0 as [|f1]; [lia|]. eapply (merge_step g pl h (fun y => 1 <= y <= 5) f1 0 [] 1 _ ROk s0); [apply HMW|exact H0|exact Hh|rewrite I1; reflexivity|cbv beta; lia|apply Hfw; lia|]. cbn [hd].
+  destruct f1 as [|f2]; [lia|]. eapply (merge_step g pl h (fun y => 1 <= y <= 5) f2 0 [1] 2 _ ROk s0); [apply HMW|exact H0|exact Hh|rewrite I1; reflexivity|cbv beta; lia|apply Hfw; lia|]. cbn [hd].
+  destruct f2 as [|f3]; [lia|]. eapply (merge_step g pl h (fun y => 1 <= y <= 5) f3 0 [1; 2] 3 _ ROk s0); [apply HMW|exact H0|exact Hh|rewrite I1; reflexivity|cbv beta; lia|apply Hfw; lia|]. cbn [hd].
+  destruct f3 as [|f4]; [lia|]. eapply (merge_step g pl h (fun y => 1 <= y <= 5) f4 0 [1; 2; 3] 4 _ ROk s0); [apply HMW|exact H0|exact Hh|rewrite I1; reflexivity|cbv beta; lia|apply Hfw; lia|]. cbn [hd].
+  destruct f4 as [|f5]; [lia|]. eapply (merge_step g pl h (fun y => 1 <= y <= 5) f5 0 [1; 2; 3; 4] 5 _ ROk s0); [apply HMW|exact H0|exact Hh|rewrite I1; reflexivity|cbv beta; lia|apply Hfw; lia|]. cbn [hd].
+  (* the trees of the earlier tables *)
+  unfold rest0.
+  eapply (merge_forest g pl h KT0 I5 I7 (fun y Hy => ltac:(pose proof (I9 y Hy); lia)) [] KT0 D0' _ f5 s0 ROk);
+    [reflexivity|exact H0|exact Hh|rewrite I1; reflexivity|lia|].
+  eapply (mspec_all h tbl tbls data Hnth ts KT0 (fun _ => []) b (lenN dpre) s0 g pl _ 4%nat dpre dpost);
+    [exact H0|exact I|exact Hh|exact Htb|exact Hdata|reflexivity|exact Hok|lia|lia|].
   intros t' g' pl' m' H' I'.
-  destruct (f5 - length ts)%nat as [|f6] eqn:Ef; [lia|]. rewrite mergeScope_loop_S. rewrite N.eqb_refl. apply wp_ret.
+  destruct (f5 - length KT0 - length ts)%nat as [|f6] eqn:Ef; [lia|]. rewrite mergeScope_loop_S. rewrite N.eqb_refl. apply wp_ret.
   split; [reflexivity|]. exists g', pl'. split; [exact H'|]. split; [exact Hh|]. split; [exact Htb|]. split; [reflexivity|]. exact I'.
+Qed.
+
+Lemma merge_root ts hdr f s g pl :
+  let data := hdr ++ enc_titems ts in
+  Rep (p_tree s) g pl -> MInv 1 0 g pl [] (fun _ => []) 6 aml_sizeofSDTHeader ts ->
+  p_handle s = 1 -> p_tables s = [data] -> lenN hdr = aml_sizeofSDTHeader -> forallb titem_okb ts = true ->
+  (3 * tszs ts + length ts + 40 <= f)%nat ->
+  wp False (mergeScopeDirectives f 0) s (fun r s' => r = ROk /\ exists g' pl',
+     Rep (p_tree s') g' pl' /\ p_handle s' = 1 /\ p_tables s' = [data] /\ p_relocatedObjects s' = p_relocatedObjects s /\
+     MInv 1 0 g' pl' (keep 1 0 6 aml_sizeofSDTHeader ts) (moved 1 0 6 aml_sizeofSDTHeader ts) (6 + N.of_nat (tszs ts)) (aml_sizeofSDTHeader + lenN (enc_titems ts)) []).
+Proof.
+  intros data H I Hh Htb Hhdr Hok Hf. rewrite <- Hhdr in I |- *.
+  apply (merge_rootG 1 0 [data] data eq_refl ts [] 6 hdr [] f s g pl H I Hh Htb); [unfold data; rewrite app_nil_r; reflexivity|exact Hok|cbn [rsizes fold_right length]; lia].
 Qed.
 
 (** ---- the final tree ---- *)
 Definition root_tree3 (ts : list titem) : rose :=
-  RN 0 (dpay 0) (map (fun d => RN d (dpay d) (moved 6 aml_sizeofSDTHeader ts d)) D0' ++ keep 6 aml_sizeofSDTHeader ts).
+  RN 0 (dpay 0) (map (fun d => RN d (dpay d) (moved 1 0 6 aml_sizeofSDTHeader ts d)) D0' ++ keep 1 0 6 aml_sizeofSDTHeader ts).
 
-Lemma keep_moved_size : forall ts b off,
-  (rsizes (keep b off ts) + (rsizes (moved b off ts 1) + rsizes (moved b off ts 2) + rsizes (moved b off ts 3) + rsizes (moved b off ts 4) + rsizes (moved b off ts 5)) <= tszs ts)%nat.
+Lemma keep_moved_size h tbl : forall ts b off,
+  (rsizes (keep h tbl b off ts) + (rsizes (moved h tbl b off ts 1) + rsizes (moved h tbl b off ts 2) + rsizes (moved h tbl b off ts 3) + rsizes (moved h tbl b off ts 4) + rsizes (moved h tbl b off ts 5)) <= tszs ts)%nat.
 Proof.
   induction ts as [|x t IH]; intros b off; [cbn; lia|].
   specialize (IH (b + N.of_nat (tsz x)) (off + lenN (enc_titem x))).
   cbn [keep moved]. rewrite !rsizes_app, tszs_cons. destruct x as [it|k root d body]; cbn [tsz].
-  - assert (E : rsizes (lay2_item 1 0 b off it) = isz it).
-    { pose proof (lay2_rsizes 1 0 [it] b off) as E. rewrite lay2_single in E. cbn [iszs fold_right] in E. lia. }
+  - assert (E : rsizes (lay2_item h tbl b off it) = isz it).
+    { pose proof (lay2_rsizes h tbl [it] b off) as E. rewrite lay2_single in E. cbn [iszs fold_right] in E. lia. }
     rewrite E. cbn [rsizes fold_right tsz] in *. lia.
-  - pose proof (lay2_rsizes 1 0 body (b + 3) (off + 1 + k + sc_len root)) as E.
+  - pose proof (lay2_rsizes h tbl body (b + 3) (off + 1 + k + sc_len root)) as E.
     destruct (N.eqb_spec d 1); destruct (N.eqb_spec d 2); destruct (N.eqb_spec d 3); destruct (N.eqb_spec d 4); destruct (N.eqb_spec d 5);
       try lia; cbn [rsizes fold_right tsz] in *; lia.
 Qed.
@@ -193,33 +239,36 @@ Qed.
 Lemma root_tree3_size ts : (rsize (root_tree3 ts) <= 6 + tszs ts)%nat.
 Proof.
   unfold root_tree3. rewrite rsize_eq, rsizes_app. cbn [D0' map rsizes fold_right]. rewrite !rsize_eq.
-  pose proof (keep_moved_size ts 6 aml_sizeofSDTHeader). unfold rsizes in *. lia.
+  pose proof (keep_moved_size 1 0 ts 6 aml_sizeofSDTHeader). unfold rsizes in *. lia.
 Qed.
 
-Lemma root_tree3_facts g pl ts B off :
-  MInv g pl (keep 6 aml_sizeofSDTHeader ts) (moved 6 aml_sizeofSDTHeader ts) B off [] ->
-  Desc g pl (root_tree3 ts) /\ rallr f1_ok (root_tree3 ts) /\
-  (forall y a, pget pl y = Some a -> y_op a <> opFreed -> In y (rnodes (root_tree3 ts))).
+Definition root_treeG (KT : list rose) (M : N -> list rose) : rose :=
+  RN 0 (dpay 0) (map (fun d => RN d (dpay d) (M d)) D0' ++ KT).
+
+Lemma root_treeG_facts h tbl g pl KT M B off :
+  MInv h tbl g pl KT M B off [] ->
+  Desc g pl (root_treeG KT M) /\ rallr f1_okE (root_treeG KT M) /\
+  (forall y a, pget pl y = Some a -> y_op a <> opFreed -> In y (rnodes (root_treeG KT M))).
 Proof.
   intros [I1 I2 I3 I4 I5 I6 I7 I8 I9 I10 I11 I12 I13]. cbn [tlay2 map] in I1. rewrite app_nil_r in I1.
-  assert (HD5 : forall d, 1 <= d <= 5 -> Desc g pl (RN d (dpay d) (moved 6 aml_sizeofSDTHeader ts d))).
+  assert (HD5 : forall d, 1 <= d <= 5 -> Desc g pl (RN d (dpay d) (M d))).
   { intros d Hd. constructor; [apply I2; lia|apply I3; exact Hd|apply I6; exact Hd]. }
-  assert (HO5 : forall d, 1 <= d <= 5 -> rallr f1_ok (RN d (dpay d) (moved 6 aml_sizeofSDTHeader ts d))).
-  { intros d Hd. constructor; [cbn [f1_ok]; left; eexists; reflexivity|apply I8; exact Hd]. }
+  assert (HO5 : forall d, 1 <= d <= 5 -> rallr f1_okE (RN d (dpay d) (M d))).
+  { intros d Hd. constructor; [apply dflt_okE|apply I8; exact Hd]. }
   split; [|split].
-  - unfold root_tree3. constructor; [apply I2; lia|rewrite I1, map_app; reflexivity|].
+  - unfold root_treeG. constructor; [apply I2; lia|rewrite I1, map_app; reflexivity|].
     apply Forall_app. split; [|exact I5]. cbn [D0' map]. repeat (constructor; [apply HD5; lia|]). constructor.
-  - unfold root_tree3. constructor; [cbn [f1_ok]; left; eexists; reflexivity|].
+  - unfold root_treeG. constructor; [apply dflt_okE|].
     apply Forall_app. split; [|exact I7]. cbn [D0' map]. repeat (constructor; [apply HO5; lia|]). constructor.
-  - intros y a Hy Hl. unfold root_tree3. rewrite rnodes_eq, rnodesl_app.
-    assert (Hleaf : forall d, 1 <= d <= 5 -> In y (rnodesl (moved 6 aml_sizeofSDTHeader ts d)) ->
-              In y (rnodesl (map (fun d => RN d (dpay d) (moved 6 aml_sizeofSDTHeader ts d)) D0'))).
-    { intros d Hd Hin. unfold rnodesl at 1. apply in_flat_map. exists (RN d (dpay d) (moved 6 aml_sizeofSDTHeader ts d)). split.
+  - intros y a Hy Hl. unfold root_treeG. rewrite rnodes_eq, rnodesl_app.
+    assert (Hleaf : forall d, 1 <= d <= 5 -> In y (rnodesl (M d)) ->
+              In y (rnodesl (map (fun d => RN d (dpay d) (M d)) D0'))).
+    { intros d Hd Hin. unfold rnodesl at 1. apply in_flat_map. exists (RN d (dpay d) (M d)). split.
       - apply in_map_iff. exists d. split; [reflexivity|]. unfold D0'. cbn [In]. lia.
       - rewrite rnodes_eq. right. exact Hin. }
     destruct (N.ltb_spec y 6) as [Hlt|Hge].
     + destruct (N.eqb_spec y 0) as [->|Hy0]; [left; reflexivity|]. right. apply in_or_app. left.
-      unfold rnodesl. apply in_flat_map. exists (RN y (dpay y) (moved 6 aml_sizeofSDTHeader ts y)). split.
+      unfold rnodesl. apply in_flat_map. exists (RN y (dpay y) (M y)). split.
       * apply in_map_iff. exists y. split; [reflexivity|]. unfold D0'. cbn [In]. lia.
       * rewrite rnodes_eq. left. reflexivity.
     + destruct (N.ltb_spec y B) as [HltB|HgeB].
@@ -227,14 +276,20 @@ Proof.
       * rewrite I13 in Hy by (cbn [tszs fold_right]; lia). discriminate.
 Qed.
 
+Lemma root_tree3_facts g pl ts B off :
+  MInv 1 0 g pl (keep 1 0 6 aml_sizeofSDTHeader ts) (moved 1 0 6 aml_sizeofSDTHeader ts) B off [] ->
+  Desc g pl (root_tree3 ts) /\ rallr f1_okE (root_tree3 ts) /\
+  (forall y a, pget pl y = Some a -> y_op a <> opFreed -> In y (rnodes (root_tree3 ts))).
+Proof. apply root_treeG_facts. Qed.
+
 (** ---- passes 3 to 6, the merge being given ---- *)
-Lemma rest_generic2 fuel s (P : ghost -> list pay -> Prop) :
+Lemma rest_generic2 fuel s (H0 : N) (P : ghost -> list pay -> Prop) :
   (forall t g pl, Rep t g pl -> P g pl -> exists R0 a0, Desc g pl R0 /\ ridx R0 = 0 /\ pget pl 0 = Some a0 /\ y_op a0 <> opFreed /\
      (forall y a, pget pl y = Some a -> y_op a <> opFreed ->
-        merge_ok 1 a /\ defer_ok 1 a /\ reloc_ok g pl 1 y a /\ nonnamed_ok g 1 y a /\ calls_ok g 1 y a) /\
+        merge_ok H0 a /\ defer_ok H0 a /\ reloc_ok g pl H0 y a /\ nonnamed_ok g H0 y a /\ calls_ok g H0 y a) /\
      (3 * rsize R0 + 1 <= fuel)%nat) ->
   wp False (mergeScopeDirectives fuel 0) (with_counters s 1 (p_mergedScopes s) (p_relocatedObjects s)) (fun r s' => r = ROk /\
-     exists g pl, Rep (p_tree s') g pl /\ P g pl /\ p_handle s' = 1 /\ p_tables s' = p_tables s /\ p_relocatedObjects s' = 0) ->
+     exists g pl, Rep (p_tree s') g pl /\ P g pl /\ p_handle s' = H0 /\ p_tables s' = p_tables s /\ p_relocatedObjects s' = 0) ->
   wp False (rest_passes fuel) s (fun b s' => b = true /\ exists g pl, Rep (p_tree s') g pl /\ P g pl /\ p_tables s' = p_tables s).
 Proof.
   intros HP Hmerge. unfold rest_passes.
@@ -247,17 +302,17 @@ Proof.
   assert (Hfw : fwalk g (S F) 0) by (rewrite <- Hr0; apply (fwalk_size g pl R0 HD); lia).
   assert (Hfwb : fwalkb g (S F) 0) by (rewrite <- Hr0; apply (fwalkb_size g pl R0 HD); lia).
   apply wp_bind. eapply wp_conseq.
-  { apply (proj1 (reloc_all g pl 1 (fun y a A B => proj1 (proj2 (proj2 (Hc y a A B)))) (S F)) 0 _ s3 H3 Hh Hr3 Hp0' Hl0 Hfw). }
+  { apply (proj1 (reloc_all g pl H0 (fun y a A B => proj1 (proj2 (proj2 (Hc y a A B)))) (S F)) 0 _ s3 H3 Hh Hr3 Hp0' Hl0 Hfw). }
   intros r s' (-> & ->). change (pres_eqb ROk RFailed) with false. change (pres_eqb ROk ROk && pres_eqb ROk ROk) with true. cbv iota.
   apply wp_ret. change (negb (pres_eqb ROk ROk)) with false. cbv iota.
   apply wp_bind. eapply wp_conseq.
-  { apply (proj1 (defer_all g pl 1 (fun y a A B => proj1 (proj2 (Hc y a A B))) (S F)) (S F) 0 _ s3 H3 Hh Hp0' Hl0 Hfw). }
+  { apply (proj1 (defer_all g pl H0 (fun y a A B => proj1 (proj2 (Hc y a A B))) (S F)) (S F) 0 _ s3 H3 Hh Hp0' Hl0 Hfw). }
   intros r s' (-> & ->). change (negb (pres_eqb ROk ROk)) with false. cbv iota.
   apply wp_bind. eapply wp_conseq.
-  { apply (proj1 (calls_all g pl 1 (fun y a A B => proj2 (proj2 (proj2 (proj2 (Hc y a A B))))) (S F)) 0 _ s3 H3 Hh Hp0' Hl0 Hfwb). }
+  { apply (proj1 (calls_all g pl H0 (fun y a A B => proj2 (proj2 (proj2 (proj2 (Hc y a A B))))) (S F)) 0 _ s3 H3 Hh Hp0' Hl0 Hfwb). }
   intros r s' (-> & ->). change (negb (pres_eqb ROk ROk)) with false. cbv iota.
   apply wp_bind. eapply wp_conseq.
-  { apply (proj1 (nonnamed_all g pl 1 (fun y a A B => proj1 (proj2 (proj2 (proj2 (Hc y a A B))))) (S F)) 0 _ s3 H3 Hh Hp0' Hl0 Hfwb). }
+  { apply (proj1 (nonnamed_all g pl H0 (fun y a A B => proj1 (proj2 (proj2 (proj2 (Hc y a A B))))) (S F)) 0 _ s3 H3 Hh Hp0' Hl0 Hfwb). }
   intros r s' (-> & ->). change (negb (pres_eqb ROk ROk)) with false. cbv iota.
   apply wp_ret. split; [reflexivity|]. exists g, pl. split; [exact H3|]. split; [exact HPg|exact Htb].
 Qed.
@@ -302,11 +357,11 @@ Proof.
   (* the remaining passes *)
   set (s2 := with_tree (after_first t1 [] 1 data) t2).
   eapply wp_conseq.
-  { apply (rest_generic2 fuel s2 (fun g pl => exists B off, MInv g pl (keep 6 aml_sizeofSDTHeader ts) (moved 6 aml_sizeofSDTHeader ts) B off [])).
+  { apply (rest_generic2 fuel s2 1 (fun g pl => exists B off, MInv 1 0 g pl (keep 1 0 6 aml_sizeofSDTHeader ts) (moved 1 0 6 aml_sizeofSDTHeader ts) B off [])).
     - intros t g pl Hrep (B & off & I). destruct (root_tree3_facts g pl ts B off I) as (D3 & O3 & C3).
       exists (root_tree3 ts), (dpay 0). split; [exact D3|]. split; [reflexivity|]. split; [apply (Desc_inv _ _ _ _ _ D3)|]. split; [discriminate|].
       split; [|pose proof (root_tree3_size ts); lia].
-      apply (f1_conds t g pl (root_tree3 ts) Hrep D3 O3 C3).
+      apply (f1_conds t g pl (root_tree3 ts) 1 Hrep D3 O3 C3).
     - eapply wp_conseq.
       { apply (merge_root ts hdr fuel (with_counters s2 1 (p_mergedScopes s2) (p_relocatedObjects s2)) g2 pl2); [exact H2|exact I2|reflexivity|reflexivity|exact Hhdr|exact Hok|lia]. }
       intros r s3 (-> & g3 & pl3 & H3 & Hh3 & Htb3 & Hr3 & I3). split; [reflexivity|]. exists g3, pl3.
